@@ -15,6 +15,8 @@
 //	-prop c13   the SCION client with DRKey authentication enabled only (client clause of C13), incl. re-framed datagrams
 //	-prop c11   the NTS clients' cookie pool along histories of exchanges with unauthenticated
 //	            datagrams in front of / instead of the genuine reply (client clauses of C11; driver drv_c11)
+//	-prop c11origin  the pool when datagrams that authenticate but do not echo the request precede the genuine reply (driver drv_c03)
+//	-prop c15wrap    the SCION wrapper's per-path attempt loop under context regimes, a path server that answers interleaved (break)
 //	-prop c20   destination of the NTS-protected request for every kind of server / port an
 //	            NTS key exchange may name (client clause of C20)
 package main
@@ -68,6 +70,8 @@ func exec(t []string) string {
 	case t[0] == "ntp.meta" && len(t) == 3:
 		p := ntp.Packet{LVM: uint8(i64(t[1])), Stratum: uint8(i64(t[2]))}
 		return "ok " + lib.Bool(ntp.ValidateResponseMetadata(&p) == nil)
+	case t[0] == "cli.hist":
+		return execHist(t) // hdrhistogram.RecordValue on the real library (gen_tail.go)
 	case len(t[0]) > 4 && t[0][:4] == "cli.":
 		return "live-only"
 	case t[0] == "cl.exch":
@@ -128,6 +132,19 @@ func gen(c *lib.Ctx) {
 		genNoStamp(c, "c03nostamp-scion", true)
 		genLatePort(c, "c03lateport-ip", false)
 		genLatePort(c, "c03lateport-scion", true)
+		genHistPure(c)
+		genHist(c, "c03hist-ip", false)
+		genHist(c, "c03hist-scion", true)
+		genHistWrap(c, "c03histwrap-ip", false)
+		genHistWrap(c, "c03histwrap-scion", true)
+		genHdr(c, "c03hdr")
+	case "tail": // development: the streams of gen_tail.go only
+		genHistPure(c)
+		genHist(c, "c03hist-ip", false)
+		genHist(c, "c03hist-scion", true)
+		genHistWrap(c, "c03histwrap-ip", false)
+		genHistWrap(c, "c03histwrap-scion", true)
+		genHdr(c, "c03hdr")
 	case "c05":
 		genC05IP(c)
 		genWrapIP(c)
@@ -148,6 +165,11 @@ func gen(c *lib.Ctx) {
 		genReframe(c, "c05reframe", false)
 		genNoStamp(c, "c05nostamp-ip", false)
 		genNoStamp(c, "c05nostamp-scion", true)
+		genHistPure(c)
+		genHist(c, "c05hist-ip", false)
+		genHist(c, "c05hist-scion", true)
+		genHistWrap(c, "c05histwrap-ip", false)
+		genHistWrap(c, "c05histwrap-scion", true)
 	case "port": // development
 		genLatePort(c, "c03lateport-ip", false)
 		genLatePort(c, "c03lateport-scion", true)
@@ -169,6 +191,12 @@ func gen(c *lib.Ctx) {
 	case "c11":
 		genPool(c, "c11pool-ip", false)
 		genPool(c, "c11pool-scion", true)
+	case "c15wrap": // the per-path attempt loop of MeasureClockOffsetSCION incl. its break in interleaved mode (composition into C15)
+		genWrapCtx(c, "c15wrapctx-scion", true)
+		genHistWrap(c, "c15histwrap-scion", true)
+	case "c11origin":
+		genPoolOrigin(c, "c11origin-ip", false)
+		genPoolOrigin(c, "c11origin-scion", true)
 	default:
 		panic("unknown -prop")
 	}
